@@ -10,3 +10,4 @@ import RSVerif.Properties.C06
 #print axioms RS.source_valid_calls_succeed
 #print axioms RS.source_simulates_model
 #print axioms RS.source_simulates_model_steps
+#print axioms RS.source_simulation_starts
